@@ -45,10 +45,12 @@ def main():
         sys.exit(2)
     try:
         for pid, name, patch in patches:
-            sh(f"git -C {SCRATCH} checkout -q -- . && git -C {SCRATCH} clean -fdq")
-            a = sh(f"git -C {SCRATCH} apply --3way {patch}")
+            sh(f"git -C {SCRATCH} reset -q --hard && git -C {SCRATCH} clean -fdq")
+            a = sh(f"git -C {SCRATCH} apply {patch}")
             if a.returncode:
-                a = sh(f"git -C {SCRATCH} apply {patch}")
+                a = sh(f"git -C {SCRATCH} apply --3way {patch}")
+                if a.returncode:
+                    sh(f"git -C {SCRATCH} reset -q --hard")
             if a.returncode:
                 results[name] = {"property": pid, "status": "patch_does_not_apply", "detail": a.stderr[-300:]}
                 print(f"{name:60s} DOES-NOT-APPLY")
